@@ -50,6 +50,7 @@ meta['repo_head'] = subprocess.run(['git', '-C', '/repo', 'rev-parse', '--short'
 ok = True
 try:
     def run_demo():
+        os.makedirs(os.path.dirname(f'{wt}/{demo_dst}'), exist_ok=True)
         shutil.copy(f'{src}/{demo_src}', f'{wt}/{demo_dst}')
         r = subprocess.run(['go', 'test', '-vet=off', '-count=1', '-run', run_pat, pkg], cwd=wt, env=env, capture_output=True, text=True)
         os.remove(f'{wt}/{demo_dst}')
